@@ -42,7 +42,7 @@ type c12Case struct {
 	KilledAt string   `json:"killed_at,omitempty"`
 }
 
-var c12Scenarios = []string{"pull-new", "pull-update", "create-files", "create-from-replace", "copy", "delete-shared"}
+var c12Scenarios = []string{"pull-new", "pull-update", "create-files", "create-from-replace", "copy", "delete-shared", "delete-many-layers"}
 var c12Classes = []string{"renameat,renameat2,rename", "unlinkat,unlink", "openat", "write,pwrite64", "ftruncate", "mkdirat,mkdir", "fchmodat,chmod,fchmod"}
 
 type c12World struct {
@@ -84,7 +84,7 @@ func (w *c12World) op(sc string, srv *Srv, reg *FakeReg, onLine func(int, map[st
 		return srv.Create(map[string]any{"model": "victim", "from": "keep", "system": "sys two", "parameters": map[string]any{"temperature": 0.5}}, onLine)
 	case "copy":
 		return srv.Copy("keep", "cp")
-	case "delete-shared":
+	case "delete-shared", "delete-many-layers":
 		r := srv.Delete("del")
 		if retry && r.Status == 404 {
 			return apiResult{Status: 200} // it had already taken effect
@@ -140,6 +140,16 @@ func (w *c12World) setup(sc string) (string, *FakeReg, storeState, string) {
 			srv.Kill()
 			return fail("setup create del: " + r.Err)
 		}
+	case "delete-many-layers":
+		// 24 license layers of its own + the model and template layers it shares with "keep": a long delete
+		var lic []string
+		for i := 0; i < 24; i++ {
+			lic = append(lic, fmt.Sprintf("license text number %d", i))
+		}
+		if r := srv.Create(map[string]any{"model": "del", "from": "keep", "system": "sys del", "license": lic}, nil); !r.OK() {
+			srv.Kill()
+			return fail("setup create del: " + r.Err)
+		}
 	}
 	srv.Stop()
 	// control run on a copy
@@ -176,13 +186,17 @@ func c12Gen(r *kit.Rand, idx int) c12Case {
 		c.Crash = c12Crash{Kind: "reg-request", ReqKind: kit.Pick(r, []string{"manifest", "head", "blobget", "cdn"}), N: r.Range(1, 3)}
 	case pull && k < 5:
 		c.Crash = c12Crash{Kind: "reg-body", N: r.Range(1, 3), Bytes: kit.Pick(r, []int{0, 1, 100, 4000, 5013, r.Intn(5100)})}
-	case k < 6 && c.Scenario != "copy" && c.Scenario != "delete-shared":
+	case k < 6 && c.Scenario != "copy" && !strings.HasPrefix(c.Scenario, "delete"):
 		c.Crash = c12Crash{Kind: "progress", N: r.Range(1, 8)}
 	default:
 		// when=N counts per thread: small N are the ones that are reached
 		c.Crash = c12Crash{Kind: "strace", Class: kit.Pick(r, c12Classes), N: kit.Pick(r, []int{1, 1, 1, 1, 2, 2, 2, 3, 3, 4, 5, 6})}
 		if (strings.HasPrefix(c.Crash.Class, "openat") || strings.HasPrefix(c.Crash.Class, "write")) && r.Chance(1, 3) {
 			c.Crash.N = r.Range(4, 14)
+		}
+		if c.Scenario == "delete-many-layers" && r.Chance(1, 2) {
+			c.Crash.Class = "unlinkat,unlink"
+			c.Crash.N = r.Range(1, 20)
 		}
 	}
 	return c
@@ -474,7 +488,7 @@ func runC12() {
 	rep := kit.NewReport("C12")
 	cfg := rep.Cfg()
 	defer rep.Flush()
-	rep.Set("rule", "case i = PRNG(seed,'C12',i): scenario i mod 6 of {pull new, pull update of a tag (shared layer), create from uploaded file, re-create an existing model from another (prunes replaced layers), copy, delete a model that shares layers} on a prepared store that also holds an uninvolved model; crash = SIGKILL of the real server at one point: strace-injected before the N-th syscall of a thread in one class of {rename*, unlink*, openat, write/pwrite64, ftruncate, mkdir*, chmod*} (N 1-14, GOMAXPROCS 1 or 4), or by the fake registry on arrival of the r-th manifest/HEAD/blob/CDN request or after b bytes of the r-th CDN body, or by the client after progress line m. Then: store inspected, real restart (start-up repair; 1/4 with OLLAMA_NOPRUNE), inspected again, operation repeated, inspected, restart, tree compared with the control run's. Non-trivial & distinct = distinct (scenario, crash kind, class or request kind, N / byte bucket, syscall+path class actually killed) among runs in which the server really was killed")
+	rep.Set("rule", "case i = PRNG(seed,'C12',i): scenario i mod 7 of {pull new, pull update of a tag (shared layer), create from uploaded file, re-create an existing model from another (prunes replaced layers), copy, delete a model that shares layers, delete a model with 24 layers of its own} on a prepared store that also holds an uninvolved model; crash = SIGKILL of the real server at one point: strace-injected before the N-th syscall of a thread in one class of {rename*, unlink*, openat, write/pwrite64, ftruncate, mkdir*, chmod*} (N 1-14, GOMAXPROCS 1 or 4), or by the fake registry on arrival of the r-th manifest/HEAD/blob/CDN request or after b bytes of the r-th CDN body, or by the client after progress line m. Then: store inspected, real restart (start-up repair; 1/4 with OLLAMA_NOPRUNE), inspected again, operation repeated, inspected, restart, tree compared with the control run's. Non-trivial & distinct = distinct (scenario, crash kind, class or request kind, N / byte bucket, syscall+path class actually killed) among runs in which the server really was killed")
 	rep.Set("assumptions", []string{"crash model = process death (SIGKILL): completed syscalls persist (page cache survives); power loss / missing fsync is outside the statement", "strace's when=N counts per thread, so not every global ordinal is reachable; the points actually hit are listed in coverage.killed_points"})
 	w := &c12World{bin: os.Getenv("VERIF_OLLAMA_BIN"), pool: c04Pool(nil), tmpl: map[string]string{}, control: map[string]storeState{}, regs: map[string]*FakeReg{}, setupErr: map[string]string{}}
 	var err error
@@ -483,7 +497,7 @@ func runC12() {
 		panic(err)
 	}
 	defer os.RemoveAll(w.work)
-	n := cfg.N(180, 3600)
+	n := cfg.N(210, 8400)
 	replayIdx := -1
 	if cfg.Replay != "" {
 		var rc struct {
